@@ -251,14 +251,18 @@ func (w *World) CheckSettled(after string) {
 		if len(fails) == 0 || w.Dead {
 			return
 		}
-		pick := fails[0]
 		for _, f := range fails {
 			if f.prop == w.Prop {
-				pick = f
-				break
+				w.Fail(f.prop, f.sig, f.what)
+				return
 			}
 		}
-		w.Fail(pick.prop, pick.sig, pick.what)
+		// clauses of other properties refuted on the hooked state: counted, and the history goes on - the harness's
+		// own model is built from calls and return values, not from the controller's tables, so it has not diverged,
+		// and what the inconsistency does to the property under check is still to be seen
+		for _, f := range fails {
+			w.Res.Count("other_property_observation:"+f.prop+":"+f.sig, 1)
+		}
 	}()
 	st := w.C.VerifState()
 	w.Res.Count("settled_points", 1)
